@@ -90,3 +90,21 @@ Lemma short_block_write_refuted_before_repair :
   recover false (vol f2) = None /\
   state_of_entries [] (submitted false ex_fault_h) = [(1, 10); (2, 20); (3, 30)].
 Proof. vm_compute. repeat split; reflexivity. Qed.
+
+(* a short block write whose truncation back fails too (the tail stays in the file), a flush
+   that still cannot remove it, then the fault clears: the next flush cuts the tail off first
+   and everything submitted is stored *)
+Definition ex_dirty_h : list api :=
+  [AOpen; AWrite (1, Some 10) (Some (5, FFok)); AWrite (2, Some 20) (Some (7, FFshortDirty 20));
+   AWrite (3, Some 30) (Some (9, FFpre)); AWrite (4, Some 40) (Some (11, FFok)); AClose 1 FFok true].
+
+Example ex_dirty_hyps_ok : Forall api_ok ex_dirty_h.
+Proof. repeat constructor; vm_compute; intuition discriminate. Qed.
+
+Example ex_dirty_tail_repaired :
+  let '(f2, _, ops, oks) := w_run 0 fs_empty w_closed ex_dirty_h in
+  state_of (loaded_blocks true (dur f2)) = [(1, 10); (2, 20); (3, 30); (4, 40)] /\
+  oks = [true; true; false; false; true; true] /\
+  canon_log ops = [(1, 0); (2, 64); (2, 16); (2, 5); (3, 64); (2, 16); (2, 4);
+                   (4, 85); (2, 16); (2, 11); (3, 64); (3, 64); (5, 0); (6, 0)].
+Proof. vm_compute. repeat split; reflexivity. Qed.
